@@ -140,6 +140,10 @@ func RunRefDeal(c RefDealCase) (res RefDealResult) {
 			add("C09", "NoPanic", fmt.Sprintf("panic: %v", r))
 		}
 	}()
+	if c.Shape == "cancel" {
+		runCancel(c, &res, add)
+		return
+	}
 	rng := rand.New(rand.NewSource(c.Seed))
 	poly := shapedPoly(c.Shape, c.T, c.Silent, rng)
 	// the real participants
@@ -354,4 +358,83 @@ func RunRefDeal(c RefDealCase) (res RefDealResult) {
 		}
 	}
 	return
+}
+
+// runCancel: Joint-Feldman with n = 3, t = 1: the real participant `me`, a rushing reference dealer that deals exactly the opposite
+// of me's polynomial (interpolated from the two shares me sends out, vector points negated) and a silent third participant.
+// The two qualified polynomials sum to zero: End() is accepted and fails with a DKG failure (identity group key) - and, like every
+// accepted End, leaves the instance not running (C10).
+func runCancel(c RefDealCase, res *RefDealResult, add func(prop, pred, d string)) {
+	const n, t = 3, 1
+	me := (c.Dealer + 1) % n
+	silent := (c.Dealer + 2) % n
+	p := &proc{me: me}
+	st, err := crypto.NewJointFeldman(n, t, me, p)
+	if err != nil {
+		add("C10", "Constructor", err.Error())
+		return
+	}
+	if err := st.Start(seedFor(c.Seed, "cancel", me)); err != nil {
+		add("C10", "Start", err.Error())
+		return
+	}
+	em, _ := p.take()
+	var vec []byte
+	shares := map[int]*big.Int{}
+	for _, e := range em {
+		if e.bcast && len(e.data) == 1+96*(t+1) && e.data[0] == 1 {
+			vec = e.data
+		}
+		if !e.bcast && len(e.data) == 33 {
+			shares[e.dest] = new(big.Int).SetBytes(e.data[1:])
+		}
+	}
+	if vec == nil || len(shares) != 2 {
+		add("C10", "Start", "the dealer did not emit a vector and two shares")
+		return
+	}
+	// P(x) through (c.Dealer+1, y1), (silent+1, y2); its value at me+1
+	x1, x2, x := big.NewInt(int64(c.Dealer+1)), big.NewInt(int64(silent+1)), big.NewInt(int64(me+1))
+	y1, y2 := shares[c.Dealer], shares[silent]
+	r := ref.R
+	inv := func(a *big.Int) *big.Int { return new(big.Int).ModInverse(new(big.Int).Mod(a, r), r) }
+	l1 := new(big.Int).Mul(new(big.Int).Sub(x, x2), inv(new(big.Int).Sub(x1, x2)))
+	l2 := new(big.Int).Mul(new(big.Int).Sub(x, x1), inv(new(big.Int).Sub(x2, x1)))
+	pm := new(big.Int).Add(new(big.Int).Mul(l1, y1), new(big.Int).Mul(l2, y2))
+	pm.Mod(pm, r)
+	opp := new(big.Int).Mod(new(big.Int).Neg(pm), r)
+	if opp.Sign() == 0 {
+		return
+	}
+	negVec := []byte{1}
+	for k := 0; k <= t; k++ {
+		pt, err := ref.G2Decompress(vec[1+96*k:1+96*(k+1)], !g2Flow())
+		if err != nil {
+			panic(err)
+		}
+		negVec = append(negVec, g2Bytes(pt.Neg())...)
+	}
+	if c.Order == 1 {
+		st.HandlePrivateMsg(c.Dealer, append([]byte{0}, scalar32(opp)...))
+		st.HandleBroadcastMsg(c.Dealer, negVec)
+	} else {
+		st.HandleBroadcastMsg(c.Dealer, negVec)
+		st.HandlePrivateMsg(c.Dealer, append([]byte{0}, scalar32(opp)...))
+	}
+	st.NextTimeout()
+	st.NextTimeout()
+	_, _, _, err = st.End()
+	res.Evals++
+	if err == nil || !crypto.IsDKGFailureError(err) {
+		add("C07", "Agreement", fmt.Sprintf("the qualified polynomials sum to zero: End() must fail with a DKG failure, got %v", err))
+	}
+	if st.Running() {
+		add("C10", "EndRule", fmt.Sprintf("an accepted End() (result: %v) leaves the instance running", err))
+	}
+	if _, _, _, err2 := st.End(); err2 == nil || !crypto.IsDKGInvalidStateTransitionError(err2) {
+		add("C10", "EndRule", fmt.Sprintf("a second End() after an accepted one returned %v, not a state-transition error", err2))
+	}
+	if err3 := st.HandleBroadcastMsg(c.Dealer, []byte{2, byte(me)}); err3 == nil || !crypto.IsDKGInvalidStateTransitionError(err3) {
+		add("C10", "RefusedWhenNotRunning", fmt.Sprintf("a message handler after End() returned %v, not a state-transition error", err3))
+	}
 }
